@@ -32,6 +32,9 @@ pub struct Shared {
     pub panicked: bool,
     /// the hostile token's own transfer handlers fail while this is set
     pub hostile_fail: bool,
+    /// re-entry program of the hostile contract: calls it makes (as sub-transactions whose failure it
+    /// swallows) the first time the marketplace sends it a transfer during the current operation
+    pub reentry: Vec<Value>,
 }
 
 pub type SharedRef = Rc<RefCell<Shared>>;
@@ -161,6 +164,10 @@ fn decode_wasm_exec(contract_addr: &str, msg: &Binary, funds: &[Coin]) -> Value 
 impl MarketAdapter {
     fn rewrite(&self, env: &Env, resp: Response) -> Response {
         let mut sh = self.shared.borrow_mut();
+        // the first marketplace call of an operation is the operation itself; later ones are re-entrant calls
+        // made by a hostile contract during dispatch: their messages are not the operation's, and the fault
+        // injection addresses the operation's own messages
+        let outer = sh.market_calls <= 1;
         let mut logged = vec![];
         let mut new_msgs: Vec<SubMsg> = vec![];
         for (i, sm) in resp.messages.iter().enumerate() {
@@ -215,7 +222,7 @@ impl MarketAdapter {
             d["id"] = json!(sm.id);
             d["gas_limit"] = json!(sm.gas_limit);
             logged.push(d);
-            if sh.fail_idx == Some(i) {
+            if outer && sh.fail_idx == Some(i) {
                 replaced = Some(failing_msg());
             }
             new_msgs.push(SubMsg {
@@ -225,7 +232,9 @@ impl MarketAdapter {
                 reply_on: sm.reply_on.clone(),
             });
         }
-        sh.last_msgs = logged;
+        if outer {
+            sh.last_msgs = logged;
+        }
         let mut r = Response::new().add_submessages(new_msgs).add_attributes(resp.attributes).add_events(resp.events);
         if let Some(data) = resp.data {
             r = r.set_data(data);
@@ -498,6 +507,31 @@ impl World {
         }
     }
 
+    /// `op["reentry"]`: exec operations of a hostile contract, performed by it re-entrantly (hostile.rs)
+    fn set_reentry(&mut self, op: &Value) {
+        let mut prog = vec![];
+        if let Some(arr) = op.get("reentry").and_then(|x| x.as_array()) {
+            for n in arr {
+                match n["t"].as_str() {
+                    // the hostile contract sends honest tokens it holds to the marketplace (Send / SendNft on the token)
+                    Some("cw20_send") => {
+                        let inner = serde_json::to_vec(&n["inner"]).unwrap_or_default();
+                        prog.push(json!({"to": n["token"], "funds": [],
+                                         "msg": {"send": {"contract": self.market.as_str(), "amount": n["amount"], "msg": Binary::from(inner)}}}));
+                    }
+                    Some("nft_send") => {
+                        let inner = serde_json::to_vec(&n["inner"]).unwrap_or_default();
+                        prog.push(json!({"to": n["coll"], "funds": [],
+                                         "msg": {"send_nft": {"contract": self.market.as_str(), "token_id": n["token_id"], "msg": Binary::from(inner)}}}));
+                    }
+                    // a plain call of the marketplace
+                    _ => prog.push(json!({"to": self.market.as_str(), "msg": n["msg"], "funds": n["funds"]})),
+                }
+            }
+        }
+        self.shared.borrow_mut().reentry = prog;
+    }
+
     fn exec_op(&mut self, op: &Value) -> AnyResult<()> {
         let t = s(&op["t"])?;
         match t.as_str() {
@@ -506,6 +540,7 @@ impl World {
                 let funds = coins_of(&op["funds"])?;
                 self.note_denoms(&funds);
                 let msg = &op["msg"];
+                self.set_reentry(op);
                 if self.hostile_addr(&sender) {
                     // the hostile contract forwards the message, so the marketplace sees it as sender
                     // (attached coins are forwarded from the hostile contract's own balance)
@@ -524,12 +559,14 @@ impl World {
                 }
             }
             "cw20_send" => {
+                self.set_reentry(op);
                 let inner = &op["inner"];
                 let m = json!({"send": {"contract": self.market.as_str(), "amount": s(&op["amount"])?,
                                           "msg": Binary::from(serde_json::to_vec(inner)?)}});
                 self.app.execute_contract(Addr::unchecked(s(&op["user"])?), Addr::unchecked(s(&op["token"])?), &m, &[])?;
             }
             "nft_send" => {
+                self.set_reentry(op);
                 let inner = &op["inner"];
                 let m = json!({"send_nft": {"contract": self.market.as_str(), "token_id": s(&op["token_id"])?,
                                               "msg": Binary::from(serde_json::to_vec(inner)?)}});
@@ -610,6 +647,7 @@ impl World {
         };
         let mut sh = self.shared.borrow_mut();
         sh.fail_idx = None;
+        sh.reentry.clear();
         let emitted = sh.last_msgs.len();
         let msgs = if outcome == "ok" { sh.last_msgs.clone() } else { vec![] };
         let calls = sh.market_calls;
